@@ -69,3 +69,20 @@ package gocql
 //@   loop 0: unroll 16
 //@   ensures len(result) == 36 && result[8] == '-' && result[13] == '-' && result[18] == '-' && result[23] == '-'
 //@   ensures all(i, 0, 16, result[uuid_off(i)] == hexdig(u[i]>>4) && result[uuid_off(i)+1] == hexdig(u[i]&15))
+
+// ParseUUID. General variant: accepted strings consist of exactly 32 hex digits
+// plus hyphens. Canonical variant (the 36-character form printed by String):
+// complete unrolling, the result is the bytes spelled by the digits.
+//@ func ParseUUID
+//@   props C19
+//@   variant general: true
+//@   variant canon: len(input) == 36 && input[8] == '-' && input[13] == '-' && input[18] == '-' && input[23] == '-' && all(i, 0, 16, ishex(input[uuid_off(i)]) && ishex(input[uuid_off(i)+1]))
+//@   use hexcount_base_ax(input)
+//@   loop 0@general: use hexcount_step_ax(input, iterpos)
+//@   loop 0@general: invariant 0 <= iterpos && iterpos <= len(input) && 0 <= j && j <= 32 && j == hexcount(input, iterpos)
+//@   loop 0@general: invariant forall(k, 0 <= k && k < iterpos, ishex(input[k]) || input[k] == '-')
+//@   loop 0@canon: invariant 0 <= iterpos && iterpos <= 36 && j == iterpos - uuid_hy(iterpos)
+//@   loop 0@canon: invariant all(b, 0, 16, u[b] == ite(2*b+1 < j, hexval(input[uuid_off(b)])<<4 | hexval(input[uuid_off(b)+1]), ite(2*b < j, hexval(input[uuid_off(b)])<<4, 0)))
+//@   ensures[@general] result1 == nil ==> hexcount(input, len(input)) == 32
+//@   ensures[@general] result1 == nil ==> forall(k, 0 <= k && k < len(input), ishex(input[k]) || input[k] == '-')
+//@   ensures[@canon] result1 == nil && all(i, 0, 16, result0[i] == hexval(input[uuid_off(i)])<<4 | hexval(input[uuid_off(i)+1]))
